@@ -87,6 +87,9 @@ type Client struct {
 	Base    string // http://127.0.0.1:port
 	Timeout time.Duration
 	hc      *http.Client
+	// LastAbandonAddr is the local address of the connection the last Abandon used (the
+	// server sees it as the remote address of the connection)
+	LastAbandonAddr string
 }
 
 func NewClient(base string, timeout time.Duration) *Client {
@@ -143,6 +146,7 @@ func (c *Client) Abandon(rq Req, after int, wait time.Duration) (int, error) {
 		return 0, err
 	}
 	defer conn.Close()
+	c.LastAbandonAddr = conn.LocalAddr().String()
 	var buf bytes.Buffer
 	m := rq.Method
 	if m == "" {
